@@ -215,8 +215,31 @@ def _abstraction_only(ob):
         return False
     if z3.is_eq(g) and g.num_args() == 2:
         a, b = _abstraction_symbols(g.arg(0)), _abstraction_symbols(g.arg(1))
-        return a != b
+        if a != b:
+            return True
+        # the two sides differ only in how they NUMBER the heap objects they allocated (one side allocated
+        # something earlier): not a difference in behaviour either
+        x, y = _erase_refs(g.arg(0)), _erase_refs(g.arg(1))
+        return z3.eq(z3.simplify(x), z3.simplify(y)) and not z3.eq(z3.simplify(g.arg(0)), z3.simplify(g.arg(1)))
     return False
+
+
+def _erase_refs(t):
+    """t with every heap reference `obj(<number>)` replaced by obj(0)."""
+    refs = {}
+    stack, seen = [t], set()
+    while stack:
+        e = stack.pop()
+        if e.get_id() in seen or not z3.is_app(e):
+            continue
+        seen.add(e.get_id())
+        if e.decl().name() == "obj" and e.num_args() == 1 and z3.is_int_value(e.arg(0)):
+            refs[e.get_id()] = e
+            continue
+        stack.extend(e.arg(i) for i in range(e.num_args()))
+    if not refs:
+        return t
+    return z3.substitute(t, *[(e, Py.obj(z3.IntVal(0))) for e in refs.values()])
 
 
 def run_contract(name, carveouts=(), timeout_ms=10000):
